@@ -72,10 +72,12 @@ fn main() {
 
     if let Some(sub_build) = args.subcommand_matches("build") {
         match build(sub_build) {
-            Ok(_) => {}
-            Err(e) => println!("{}", e),
+            Ok(_) => exit(0),
+            Err(e) => {
+                eprintln!("{}", e);
+                exit(1);
+            }
         };
-        exit(1);
     }
 
     let mut bob = String::new();
@@ -213,6 +215,7 @@ fn build(args: &ArgMatches) -> Result<(), Box<dyn Error>> {
         fs::create_dir_all(out_path.clone())?;
     }
 
+    let mut failed = 0;
     let paths = fs::read_dir(input_dir).unwrap();
     for path in paths {
         let tmp_path = path.unwrap().path();
@@ -230,13 +233,20 @@ fn build(args: &ArgMatches) -> Result<(), Box<dyn Error>> {
                 match convert_file(tmp_path.clone(), tmp) {
                     Ok(_) => {}
                     Err(e) => {
-                        println!("{}", e);
+                        eprintln!("{}", e);
+                        failed += 1;
                     }
                 }
             }
         }
     }
 
+    if failed > 0 {
+        return Err(Box::from(format!(
+            "[Error]: {} file(s) could not be converted",
+            failed
+        )));
+    }
     Ok(())
 }
 
